@@ -1168,7 +1168,10 @@ pub fn gen_blob_spec(rng: &mut Rng, codec: Codec) -> FileSpec {
 	let mut ops = vec![];
 	let n = 1 + rng.usize(3);
 	for _ in 0..n {
-		let (len, compressible) = match rng.below(6) {
+		let (len, compressible) = match rng.below(7) {
+			// tens to hundreds of KiB that compress a thousandfold and more (zeros, one repeated byte, long runs: see
+			// `blob`): compressed forms of a few dozen bytes, expansion ratios beyond any "reasonable" bound
+			6 => ((40_000 + rng.below(260_000)) as u32, true),
 			// uncompressed block length on 8192*k +- 3 (length prefix of 2 or 3 bytes included)
 			0 | 1 => {
 				let k = 1 + rng.below(4) as i64;
